@@ -203,10 +203,12 @@ func vGenParts(name string, n int, L int, kinds int) []Location {
 //   0 atom  1 join(2)  2 order(2)  3 complement(atom)  4 complement(join(2))  5 complement(order(2))
 //   6 join(3)  7 order(3)  8 complement(join(3))  9 join(complement(a),complement(b))
 //   10 order(join(2), atom)  11 join(4)  12 join(5)  13 order(5) 14 complement(order(3)) 15 order(4)
+//   16 join(complement(a),complement(join(b,c)))  17 join(complement(join(a,b)),complement(c))  18 order(complement(join(a,b)),c)
 const (
 	vFamS1 = 6
 	vFamS2 = 11
 	vFamS3 = 16
+	vFamS4 = 19
 )
 
 func vGenFamily(name string, fam int, L int, kinds int) Location {
@@ -243,7 +245,16 @@ func vGenFamily(name string, fam int, L int, kinds int) Location {
 		return Order(vGenParts(name, 5, L, kinds)...)
 	case 14:
 		return Order(vGenParts(name, 3, L, kinds)...).Complement()
-	default:
+	case 15:
 		return Order(vGenParts(name, 4, L, kinds)...)
+	case 16:
+		p := vGenParts(name, 3, L, kinds)
+		return Join(p[0].Complement(), Join(p[1], p[2]).Complement())
+	case 17:
+		p := vGenParts(name, 3, L, kinds)
+		return Join(Join(p[0], p[1]).Complement(), p[2].Complement())
+	default:
+		p := vGenParts(name, 3, L, kinds)
+		return Order(Join(p[0], p[1]).Complement(), p[2])
 	}
 }
